@@ -315,8 +315,15 @@ func c02Judge(c *core.Ctx, api string, lay string, d *tensor.Dense, m *model.ND,
 	}
 	// the model of the view in the shape the library presented
 	vm := &model.ND{T: m.T, Shape: gotShape, V: res.Full.V}
+	if c02OnView != nil {
+		c02OnView(vd, vm, caseKey, desc)
+	}
 	return vd, vm
 }
+
+// c02OnView, when set, is shown every view this check has found right element by element, with its model (C04 takes copies
+// of each of them: a view can answer At correctly and still be copied wrongly by a consumer that trusts its flags).
+var c02OnView func(vd *tensor.Dense, vm *model.ND, caseKey string, desc map[string]interface{})
 
 func uniq(in []string) []string {
 	m := map[string]bool{}
